@@ -110,7 +110,12 @@ class LabAE(object):
     def on_receive_store(self, context, ds):
         from pynetdicom2 import statuses, dimsemessages
         data = ds.read() if hasattr(ds, 'read') else ds
-        if hasattr(ds, 'seek'):
+        if hasattr(ds, 'close') and getattr(self.lab, 'store_handler_closes', False):
+            # an application that is done with the file closes it (the documentation of get_file makes the service
+            # implementation / application responsible for closing)
+            self.lab.closed_files[id(ds)] = data
+            ds.close()
+        elif hasattr(ds, 'seek'):
             ds.seek(0)                      # leave the file as it was handed over
         return statuses.Status(self._act('store', context, data).status, dimsemessages.CStoreRSPMessage)
 
@@ -158,6 +163,7 @@ class Lab(object):
         self.sub_sent = []
         self.sub_log = []
         self.sub_assocs = []
+        self.closed_files = {}
         self.incoming = collections.deque()
         self.ae = LabAE(self)
         a = object.__new__(asceprovider.Association)
